@@ -2,6 +2,7 @@
 
 Snapshots are plain JSON-able structures built through the public attribute getters only.
 """
+import enum
 import json
 
 DOC_ATTRS = ("author", "version", "date", "repository")
@@ -17,6 +18,8 @@ def atom(v):
         return None
     if isinstance(v, (list, tuple)):
         return [type(v).__name__] + [atom(x) for x in v]
+    if isinstance(v, enum.Enum) and isinstance(v, str):
+        return ["str", repr(v.value)]       # a dtype given as DType member equals the type name it stands for
     return [type(v).__name__, repr(v)]
 
 
